@@ -31,6 +31,22 @@ def param_custom_gate():
     return CustomGateDefinition("CG", m, (a, b))
 
 
+def sym_custom_gate():
+    """Parametric custom gate whose matrix is complex-symmetric but not Hermitian."""
+    from orquestra.quantum.circuits import CustomGateDefinition
+
+    a = sympy.Symbol("sa")
+    e = sympy.exp(sympy.I * a / 2)  # unitary: a global phase times RX(a)
+    m = sympy.Matrix([[e * sympy.cos(a / 2), -sympy.I * e * sympy.sin(a / 2)], [-sympy.I * e * sympy.sin(a / 2), e * sympy.cos(a / 2)]])
+    return CustomGateDefinition("CSY", m, (a,))
+
+
+def diag_custom_gate():
+    from orquestra.quantum.circuits import CustomGateDefinition
+
+    return CustomGateDefinition("CDI", sympy.Matrix([[1, 0], [0, sympy.I]]), ())()
+
+
 def base_gate(bid):
     """bid: 'sym:RX' builtin with symbolic params th0.., 'sym:G1' generic, 'sym:CG' parametric custom
     (params th0, th1), 'num:<gid>' constant gate through circ.gate_by_id."""
@@ -42,10 +58,18 @@ def base_gate(bid):
             return CS.generic_gate(2)
         if name == "CG":
             return param_custom_gate()(sympy.Symbol("th0"), sympy.Symbol("th1"))
+        if name == "CSY":
+            return sym_custom_gate()(sympy.Symbol("th0"))
+        if name == "SG3":
+            return CS.sparse_generic_gate(3)
         tkind, obj, npar = gate_table()[name]
         return obj(*[sympy.Symbol(f"th{i}") for i in range(npar)]) if tkind == "param" else obj
     if name == "CGnum":
         return param_custom_gate()(0.3, 0.9)
+    if name == "CDI":
+        return diag_custom_gate()
+    if name == "CSYnum":
+        return sym_custom_gate()(0.7)
     return CS.gate_by_id(name)
 
 
@@ -250,7 +274,7 @@ def chains(mods, depth):
 def instances(tier, seed=0):
     table = gate_table()
     items = []
-    sym_bases = [f"sym:{n}" for n in sorted(table) if table[n][2] > 0] + ["sym:G1", "sym:CG"]
+    sym_bases = [f"sym:{n}" for n in sorted(table) if table[n][2] > 0] + ["sym:G1", "sym:CG", "sym:CSY", "sym:SG3"]
     if tier == "thorough":
         sym_bases.append("sym:G2")
     depth = 1 if tier == "quick" else 2
@@ -261,12 +285,12 @@ def instances(tier, seed=0):
                 tot = nq + sum(_k(m) for m in ch) + _k(mod)
                 if tot > (4 if tier == "quick" else 5):
                     continue
-                if tier == "quick" and len(ch) == 1 and bid not in ("sym:RX", "sym:U3", "sym:GPi", "sym:XY", "sym:MS", "sym:G1", "sym:CG", "sym:PHASE", "sym:Delay") and not stable_pick((bid, ch, mod), 3, seed):
+                if tier == "quick" and len(ch) == 1 and bid not in ("sym:RX", "sym:U3", "sym:GPi", "sym:XY", "sym:MS", "sym:G1", "sym:CG", "sym:CSY", "sym:SG3", "sym:PHASE", "sym:Delay") and not stable_pick((bid, ch, mod), 3, seed):
                     continue
                 items.append({"bid": bid, "chain": list(ch), "mod": mod})
     # ground: constant gates, all modifiers incl. power/exp
     num_bases = [f"num:{n}" for n in sorted(table) if table[n][2] == 0]
-    num_bases += ["num:RX(0.3)", "num:RZ(-1.1)", "num:U3(0.3,0.7,1.1)", "num:PHASE(0.4)", "num:XX(0.5)", "num:GPi(0.4)", "num:K1", "num:CGnum"]
+    num_bases += ["num:RX(0.3)", "num:RZ(-1.1)", "num:U3(0.3,0.7,1.1)", "num:PHASE(0.4)", "num:XX(0.5)", "num:GPi(0.4)", "num:K1", "num:CGnum", "num:CDI", "num:CSYnum", "num:K3", "num:K2"]
     gdepth = 1 if tier == "quick" else 2
     for bid in num_bases:
         nq = base_gate(bid).num_qubits
@@ -275,16 +299,18 @@ def instances(tier, seed=0):
                 continue
             for mod in GROUND_MODS:
                 tot = nq + sum(_k(m) for m in ch) + _k(mod)
-                if tot > 3:
+                if tot > (4 if bid in ("num:K3", "num:K2") else 3):
+                    continue
+                if bid in ("num:K3", "num:K2") and (any(m not in ("dagger", "c1", "c2") for m in list(ch) + [mod])):
                     continue
                 # sympy's matrix exp / fractional power of a matrix that is itself an exp or a
                 # fractional power of floats is slow; bounded out (stated)
                 heavy = sum(m in ("exp", "pow(0.5)", "pow(1/3)") for m in list(ch) + [mod])
                 if heavy > 1:
                     continue
-                if 'exp' in ch and mod.startswith('pow(-'):
+                if 'exp' in ch and mod.startswith('pow(-') and bid not in ("num:X", "num:Z", "num:H", "num:S", "num:I", "num:Y"):
                     continue
-                if tier == "quick" and len(ch) == 1 and not stable_pick((bid, ch, mod), 4, seed):
+                if tier == "quick" and len(ch) == 1 and bid not in ("num:K3", "num:K2", "num:CDI", "num:CSYnum") and not stable_pick((bid, ch, mod), 4, seed):
                     continue
                 items.append({"bid": bid, "chain": list(ch), "mod": mod, "timeout": 15 if tier == "quick" else 60})
     return items
